@@ -307,6 +307,7 @@ fn total(o: List[List[u64]]) -> u64 { let n = 0; for l in o { for v in l { n = n
     };
     let mut out = vec![];
     let vv = |o: &List<List<u64>>| -> Vec<Vec<u64>> { o.to_vec().iter().map(|l| l.to_vec()).collect() };
+    super::OP_STARTED_MS.store(super::now_ms(), std::sync::atomic::Ordering::SeqCst);
     let f: F<fn(List<List<u64>>, List<u64>) -> bool> = pkg.get_function("push_then_grow").unwrap();
     let o = List::<List<u64>>::new();
     let i = List::<u64>::from(vec![1]);
